@@ -53,6 +53,10 @@ def cases(draw, tier="quick"):
         th["PTO"] = meta["pto"] = 1
     if (th["RenScaleVar"] or th["FactScaleVar"]) and meta["pto"] > 2:
         th["PTO"] = meta["pto"] = 2
+    if meta["kind"] in ("F2", "FL", "F3") and not th["TMC"] and draw(st.integers(0, 4)) == 0:
+        # N3LO is otherwise rare (it excludes scale variations, TMC and the polarised kinds): one case in five is lifted to it
+        th["PTO"] = meta["pto"] = 3
+        th["RenScaleVar"] = th["FactScaleVar"] = False
     cfg["family"] = fam
     return cfg
 
